@@ -345,7 +345,14 @@ func runBuild(c *Ctx) {
 	}
 	for _, t := range catalogueNull {
 		c.addBuild(newTypeCase(t, Cfg{}), "", "build-null-unregistered", "null-unregistered")
-		c.addBuild(newTypeCase(t, Cfg{WithNull: true}), "", "build-null", "null")
+		tc := newTypeCase(t, Cfg{WithNull: true})
+		c.addBuild(tc, "", "build-null", "null")
+		// accepted: it must then behave
+		if _, err := tc.P.CodecForType(t); err == nil {
+			for k := 0; k < 3; k++ {
+				c.addRT(tc, vg.Value(t, 3), "build-smoke-null")
+			}
+		}
 	}
 }
 
